@@ -466,7 +466,7 @@ def rule_r345(prog: Program, col: Collector) -> None:
         col.check(bool(ones) and okz, ref.where(), ref.short, "fallback = ones(number_of_coalitions) with the node's own coalitions set to 0", construct=f"fallback:{name}",
                   necessity="strategies must be supported only on coalitions not yet revealed at that node")
         rets = list(f2.of_kind("return"))
-        okr = bool(rets) and all(r.value[0] == "bin" and r.value[1] == "/" and r.value[3] == ("call", ("attr", r.value[2], "sum"), (), ()) for r in rets)
+        okr = bool(rets) and all(r.value[0] == "bin" and r.value[1] == "/" and r.value[3] == ("call", ("global", "numpy.sum"), (r.value[2],), ()) for r in rets)
         col.check(okr, ref.where(), ref.short, "returns x / x.sum() (a probability distribution)", construct=f"normalise:{name}",
                   necessity="every current and average strategy is a probability distribution")
 
@@ -478,8 +478,9 @@ def rule_r345(prog: Program, col: Collector) -> None:
     if len(rets) != 1:
         raise AnalysisError("metacoalition_ids_by_coalition_size: expected a single return")
     rv = rets[0].value
-    combs = [s for s in subterms(rv) if s[0] == "call" and s[1][0] == "global" and s[1][1].startswith("itertools.") and
-             s[1][1].rsplit(".", 1)[-1] in ("combinations", "permutations", "product", "combinations_with_replacement")]
+    from .common import distinct
+    combs = distinct(s for s in subterms(rv) if s[0] == "call" and s[1][0] == "global" and s[1][1].startswith("itertools.") and
+                     s[1][1].rsplit(".", 1)[-1] in ("combinations", "permutations", "product", "combinations_with_replacement"))
     col.check(len(combs) == 1 and combs[0][1][1] == "itertools.combinations", ref.where(), ref.short, "coalition sets are enumerated by itertools.combinations",
               construct="meta-combinations", necessity="the ranking must be a bijection onto the sets of size <= limit")
     okrange = False
@@ -495,11 +496,10 @@ def rule_r345(prog: Program, col: Collector) -> None:
                     and len(hi[2][2]) == 2 and set(hi[2][2]) == {nc_term, ("param", rp[1])}
     col.check(okrange, ref.where(), ref.short, "sizes ascend over range(min(2**n - n - 2, limit) + 1): the limit is clipped by the number of viable coalitions", construct="meta-range",
               necessity="ranks must be ordered by set size (top-down / bottom-up sweeps rely on it) and include the root (size 0)")
-    ids = [s for s in subterms(rv) if is_call_to(s, "map") and len(s[2]) == 2 and s[2][0][0] == "lambda"]
     okid = False
-    for s in ids:
-        lam = s[2][0]
-        okid = okid or lam[2] == ("attr", ("call", ("global", P + "coalitions.Coalition.from_players"), (lam[1][0],), ()), "id")
+    for s in subterms(rv):
+        if s[0] == "comp" and len(s[3]) == 1:
+            okid = okid or s[2] == ("attr", ("call", ("global", P + "coalitions.Coalition.from_players"), (s[3][0][0],), ()), "id")
     col.check(okid, ref.where(), ref.short, "id of a coalition set = bitmask over its re-indexed coalitions (Coalition.from_players(set).id)", construct="meta-id",
               necessity="the ranking is a bijection only if the id of a coalition set is the bitmask of its re-indexed members")
     # number of regret minimisers = sets of size <= limit - 1
